@@ -137,6 +137,7 @@ func runC19(c *Ctx) {
 	ruleRowFromRecordOnly(c, "C19.10")
 	ruleBlockingErrorSend(c, "C19.12")
 	ruleMappingNotReordered(c, "C19.13")
+	ruleSentinelWrapped(c, "C19.14", "storage", "engine", "csvimport")
 	c.Rule("C19.11", "the stored row reads back as the record's values: the row codec is symmetric per column type (every value the writer emits is consumed by the reader, empty strings included) and its length prefixes are byte lengths (C08.4)")
 	checkCodecPair(c, "C19.11", "storage.(*Tuple).Encode", "storage.(*Tuple).Decode")
 	c.Rule("C19.2", "in the import loop a bad record never stops or alters the others: every error edge before the INSERT (CSV parse error, short record, conversion error) reports and continues; only a non-parse read error or EOF leaves the loop; the short-record guard rejects exactly the records that lack the largest mapped index")
@@ -622,6 +623,7 @@ func runC20(c *Ctx) {
 	c.Rule("C20.1", "the statement split depends on quote characters: the function that cuts the line at ';' tracks an opening quote character, and a literal is closed only by the SAME character that opened it (comparison with the remembered opening quote, not membership in the set of quote characters); backslash skips the escaped character")
 	c.Rule("C20.2", "the submit decision on Enter is taken from the split itself: the condition that submits the line is computed from the split's `rest` position (only blanks follow the last unquoted terminator), not from the last character of the buffer; the submitted statements are exactly the split's result, in order; the buffer is cleared only on submit")
 	c.Rule("C20.3", "no input byte is dropped: the key decoder decodes a rune only when the buffered bytes hold a full rune (utf8.FullRune guards utf8.DecodeRune), so a multi-byte character split across two reads is kept for the next read")
+	ruleNoAliasedFilter(c, "C20.6", "console")
 	f := c.W.F("console.splitStatements")
 	hk := c.NeedFunc("C20.2", "console.(*Terminal).handleKey")
 	if f == nil {
